@@ -184,3 +184,14 @@ def run(ck, prog):
     _run_c08(ck, prog)
     branch_siblings(ck, prog)
     ck.floor("E1-sibling", 2)
+
+
+_run_pre_builders = run
+
+
+def run(ck, prog):
+    _run_pre_builders(ck, prog)
+    # every setting of the quantifier is reachable through the public builder chain: setters must not clobber other fields
+    from sa.builders import check_builders
+    check_builders(ck, prog, r"^linear::(lasso::Lasso|elastic_net::ElasticNet)Parameters$")
+    ck.floor("E2-builder", 9)
